@@ -1,7 +1,7 @@
 (* BackendFrame.v — "everything else is unchanged", as a clause on one observed step (frame_ok):
    * a session's subscriptions change only by a Subscribe / Unsubscribe of the connection that holds it;
    * a session's active connection changes only when a Setup completes on it (it becomes that connection)
-     or when the connection holding it terminates (it becomes none);
+     or when the connection holding it terminates while the session still names it (it becomes none);
    * a session disappears only as the temporary session of a terminating connection or as the stored
      session of a client id whose clean Setup completes; it appears only as the session a completing
      Setup hands out, and then it is empty and owned by that connection.
@@ -53,7 +53,8 @@ Definition act_after (st : state) (o : op) (r : result) (k : skey) (s : session)
   | Some (k', c) => if skey_eqb k k' then Some c else s_act s
   | None =>
       match o, r with
-      | OTerminate c, ROk => if holder st c k then None else s_act s
+      | OTerminate c, ROk =>                        (* released only if still held by the terminating connection *)
+          if holder st c k && option_eqb N.eqb (s_act s) (Some c) then None else s_act s
       | _, _ => s_act s
       end
   end.
@@ -296,22 +297,26 @@ Proof.
       unfold holder. destruct k as [x|i]; cbn [get_session st_temps st_stored skey_eqb] in *.
       * rewrite (alookup_aremove N.eqb N.eqb_eq). destruct (x =? c) eqn:E; [reflexivity|].
         rewrite G, subs_eqb_refl. cbn [andb].
-        destruct (alookup N.eqb c (st_sess st)) as [[y|j]|] eqn:Sc; cbn [option_eqb skey_eqb]; try apply act_eqb_refl.
+        destruct (alookup N.eqb c (st_sess st)) as [[y|j]|] eqn:Sc; cbn [option_eqb skey_eqb andb]; try apply act_eqb_refl.
         pose proof (o_shape _ O c y Sc) as ->. rewrite N.eqb_sym, E. apply act_eqb_refl.
-      * destruct (alookup N.eqb c (st_sess st)) as [[y|j]|] eqn:Sc; cbn [option_eqb skey_eqb];
+      * destruct (alookup N.eqb c (st_sess st)) as [[y|j]|] eqn:Sc; cbn [option_eqb skey_eqb andb];
           try (rewrite G, subs_eqb_refl; apply act_eqb_refl).
         destruct (alookup bytes_eqb j (st_stored st)) as [s0|] eqn:L.
-        -- rewrite (alookup_aset bytes_eqb bytes_eqb_eq). rewrite (bytes_eqb_comm j i).
-           destruct (bytes_eqb i j) eqn:E.
-           ++ apply bytes_eqb_eq in E; subst j. rewrite L in G; injection G as <-. cbn [s_subs s_act].
-              rewrite subs_eqb_refl. reflexivity.
-           ++ rewrite G, subs_eqb_refl. apply act_eqb_refl.
+        -- destruct (bytes_eqb j i) eqn:E.
+           ++ apply bytes_eqb_eq in E; subst j. rewrite L in G; injection G as <-.
+              destruct (option_eqb N.eqb (s_act s0) (Some c)) eqn:Ea.
+              ** rewrite (alookup_aset bytes_eqb bytes_eqb_eq), bytes_eqb_refl. cbn [s_subs s_act]. rewrite subs_eqb_refl. reflexivity.
+              ** rewrite L, subs_eqb_refl. apply act_eqb_refl.
+           ++ cbn [andb]. destruct (option_eqb N.eqb (s_act s0) (Some c)).
+              ** rewrite (alookup_aset bytes_eqb bytes_eqb_eq), (bytes_eqb_comm i j), E, G, subs_eqb_refl. apply act_eqb_refl.
+              ** rewrite G, subs_eqb_refl. apply act_eqb_refl.
         -- rewrite G, subs_eqb_refl. cbn [andb]. destruct (bytes_eqb j i) eqn:E; [|apply act_eqb_refl].
            apply bytes_eqb_eq in E; subst j. congruence.
     + pose proof (sessions_get _ k s W' Hin) as G'. destruct k as [x|i]; cbn [get_session st_temps st_stored] in *.
       * rewrite (alookup_aremove N.eqb N.eqb_eq) in G'. destruct (x =? c); [discriminate|rewrite G'; reflexivity].
       * destruct (alookup N.eqb c (st_sess st)) as [[y|j]|]; try (rewrite G'; reflexivity).
         destruct (alookup bytes_eqb j (st_stored st)) as [s0|] eqn:L; [|rewrite G'; reflexivity].
+        destruct (option_eqb N.eqb (s_act s0) (Some c)); [|rewrite G'; reflexivity].
         rewrite (alookup_aset bytes_eqb bytes_eqb_eq) in G'. destruct (bytes_eqb i j) eqn:E; [|rewrite G'; reflexivity].
         apply bytes_eqb_eq in E; subst j. rewrite L. reflexivity.
   - unfold close_backend in *. same_tac W W'.
